@@ -3,6 +3,7 @@ CONSTANTS
     Handlers = {h1, h2, h3, h4}
     MaxSignals = 3
     CheckBeforeSelect = TRUE
+    SigBuf = 2
 INVARIANTS CountMatches CountNeverNegative
 CONSTRAINT HW
 POSTCONDITION TraceAccepted
